@@ -8,7 +8,7 @@ use crate::c06::{capacities, guarded_size, guarded_write, WRes};
 use crate::engine::*;
 use crate::json::{hex, J};
 use crate::prng::{fnv1a, Rng, FNV_INIT};
-use crate::realise::{plan_canonical, realise, Concrete};
+use crate::realise::{plan_canonical, realise, realise_probed, Concrete};
 use crate::spec::*;
 
 pub struct C17;
@@ -30,11 +30,15 @@ fn twin_write(c: &Concrete<'_>, a: &mut [u8], b: &mut [u8], sa: &mut [u8], sb: &
     let ra = guarded_write(c, &mut a[cursor..cap]);
     let rb = guarded_write(c, &mut b[cursor..cap]);
     match (&ra, &rb) {
-        (WRes::Panic(_), WRes::Panic(_)) => {
-            // C06's finding; the arena is not judged after an unwind, resynchronise the shadows
+        (WRes::Panic(m), WRes::Panic(_)) => {
+            // that the write unwinds at all is C06's finding.  It is a write that failed all the
+            // same, and a failed write must leave the whole buffer unchanged
             *panics += 1;
-            sa.copy_from_slice(a);
-            sb.copy_from_slice(b);
+            for (w, (arena, shadow)) in [(&*a, &*sa), (&*b, &*sb)].iter().enumerate() {
+                if let Some(i) = first_diff(arena, shadow) {
+                    return (ra.clone(), Some(("failed_write_changed_buffer".into(), format!("world {w}: the write unwound ({m}) after changing byte {i} of the buffer"))));
+                }
+            }
             return (ra, None);
         }
         (WRes::Panic(m), _) | (_, WRes::Panic(m)) => {
@@ -84,17 +88,17 @@ fn twin_write(c: &Concrete<'_>, a: &mut [u8], b: &mut [u8], sa: &mut [u8], sb: &
     (ra, None)
 }
 
-fn case1(spec: &Spec, cap: usize, prefill_seed: u64, hash_key: u64) -> J {
-    J::obj().set("scenario", 1).set("spec", spec.to_json()).set("cap", cap).set("prefill_seed", prefill_seed).set("hash_key", hash_key)
+fn case1(spec: &Spec, cap: usize, prefill_seed: u64, hash_key: u64, probes: u64) -> J {
+    J::obj().set("scenario", 1).set("spec", spec.to_json()).set("cap", cap).set("prefill_seed", prefill_seed).set("hash_key", hash_key).set("probes", probes)
 }
 fn case2(specs: &[Spec], cap: usize, prefill_seed: u64, hash_key: u64) -> J {
     J::obj().set("scenario", 2).set("specs", J::Arr(specs.iter().map(|s| s.to_json()).collect())).set("cap", cap).set("prefill_seed", prefill_seed).set("hash_key", hash_key)
 }
 
 /// Scenario 1: one write of `spec` into a buffer of exactly `cap` bytes in both worlds.
-fn run1(spec: &Spec, cap: usize, prefill_seed: u64, hash_key: u64, panics: &mut u64) -> (WRes, Option<(String, String)>) {
+fn run1(spec: &Spec, cap: usize, prefill_seed: u64, hash_key: u64, probes: u64, panics: &mut u64) -> (WRes, Option<(String, String)>) {
     let plan = plan_canonical(spec);
-    realise(&plan, hash_key, |c| {
+    realise_probed(&plan, hash_key, probes, |c| {
         let (mut a, mut b) = prefill(prefill_seed, cap);
         let (mut sa, mut sb) = (a.clone(), b.clone());
         twin_write(c, &mut a, &mut b, &mut sa, &mut sb, 0, cap, panics)
@@ -220,7 +224,10 @@ impl Check for C17 {
         let kh = fnv1a(FNV_INIT, kind.as_bytes());
         let prefill_seed = ar.next_u64();
         let plan = plan_canonical(&spec);
-        let found = realise(&plan, hash_key, |c| {
+        // in a quarter of the episodes the unfinished builders were observed (size query, scratch
+        // write) between configuration calls before the finished builder is written
+        let probes = if ar.chance(1, 4) { ar.next_u64() | 1 } else { 0 };
+        let found = realise_probed(&plan, hash_key, probes, |c| {
             let n_guess = match guarded_size(c) {
                 Some(WRes::Ok(n)) => n,
                 _ => 16,
@@ -258,7 +265,7 @@ impl Check for C17 {
         });
         if let Some((cap, what, detail)) = found {
             // prefill for the replay: same seed, the replay takes the first `cap` bytes of the same stream
-            out.push(Violation { class: format!("{what}@{kind}"), detail, episode: idx, case: case1(&spec, cap, prefill_seed, hash_key), provenance: J::obj().set("swarm", gcfg.to_json()) });
+            out.push(Violation { class: format!("{what}@{kind}"), detail, episode: idx, case: case1(&spec, cap, prefill_seed, hash_key, probes), provenance: J::obj().set("swarm", gcfg.to_json()) });
         }
         if ctx.stats.wants_sample("single-write", idx) && spec.weight() < 50 {
             ctx.stats.sample("single-write", idx, || J::obj().set("scenario", 1).set("spec", spec.to_json()).set("capacities", "0..=n+8 in two worlds A and !A"));
@@ -299,7 +306,7 @@ impl Check for C17 {
         match case.usize_of("scenario")? {
             1 => {
                 let spec = Spec::from_json(case.obj_of("spec")?)?;
-                let (r, v) = run1(&spec, cap, ps, key, &mut panics);
+                let (r, v) = run1(&spec, cap, ps, key, case.u64_of("probes").unwrap_or(0), &mut panics);
                 if let Some(l) = log {
                     let (a, b) = prefill(ps, cap.min(32));
                     l.push(format!("world A prefill {}.. world B prefill {}..", hex(&a), hex(&b)));
@@ -324,22 +331,27 @@ impl Check for C17 {
         let mut out = Vec::new();
         if sc == 1 {
             let Ok(spec) = case.obj_of("spec").and_then(Spec::from_json) else { return vec![] };
+            let probes = case.u64_of("probes").unwrap_or(0);
             for s in spec.shrinks() {
-                out.push(case1(&s, cap, ps, key));
+                out.push(case1(&s, cap, ps, key, probes));
                 for c in [8usize, 12, 16, 20, 24, 28, 32, 40, 48] {
                     if c != cap {
-                        out.push(case1(&s, c, ps, key));
+                        out.push(case1(&s, c, ps, key, probes));
                     }
                 }
             }
             for c in [cap / 2, cap.saturating_sub(4), cap.saturating_sub(1)] {
                 if c != cap {
-                    out.push(case1(&spec, c, ps, key));
+                    out.push(case1(&spec, c, ps, key, probes));
                 }
+            }
+            if probes != 0 {
+                out.push(case1(&spec, cap, ps, key, 0));
+                out.push(case1(&spec, cap, ps, key, u64::MAX));
             }
             for p in [0u64, 1] {
                 if p != ps {
-                    out.push(case1(&spec, cap, p, key));
+                    out.push(case1(&spec, cap, p, key, probes));
                 }
             }
         } else {
@@ -347,7 +359,7 @@ impl Check for C17 {
             // a single spec alone (scenario 1 is simpler when it already shows there)
             for s in &specs {
                 for c in [16usize, 24, 32, 64, cap] {
-                    out.push(case1(s, c, ps, key));
+                    out.push(case1(s, c, ps, key, 0));
                 }
             }
             for i in 0..specs.len() {
